@@ -268,7 +268,10 @@ func (j *judge) peer(pi int, ps *c10gen.PeerSpec, pr c10rt.PeerReport) {
 				continue
 			}
 			j.evals++
-			if prev, dup := owners[ns][n]; dup {
+			if prev, dup := owners[ns][n]; dup && prev == o {
+				j.v("intra-registration-collision", rs.PClass, "silent-collision", fmt.Sprintf("%s mapper: one %s of %s in %q returned %q: the name %q is returned twice and the process went on", j.mapper, rs.Kind, rs.What, rs.Group, rr.Names, n), w)
+				continue
+			} else if dup {
 				j.v(scen, prev.reg.PClass+"~"+rs.PClass, "silent-collision", fmt.Sprintf("%s mapper: %s in %q and %s in %q both returned the %s name %q and the process went on", j.mapper, prev.reg.What, prev.reg.Group, rs.What, rs.Group, ns, n),
 					map[string]interface{}{"first": prev.reg, "second": rs, "name": n})
 				continue
@@ -440,7 +443,11 @@ func (j *judge) collision(cs *c10gen.CollisionSpec, cr c10rt.CollisionReport) {
 	j.evals++
 	core.Add("collision_runs", 1)
 	scen := "collision:" + cs.Class
-	pclass := cs.A.PClass + "~" + cs.B.PClass
+	pclass := cs.PClass
+	if cs.Single {
+		j.single(cs, cr)
+		return
+	}
 	w := map[string]interface{}{"pair": cs.What, "class": cs.Class, "a": cs.A, "b": cs.B, "grandchild": cr}
 	sameNS := strings.HasPrefix(cs.A.Kind, "call") == strings.HasPrefix(cs.B.Kind, "call")
 	if cr.Problem != "" {
@@ -478,6 +485,71 @@ func (j *judge) collision(cs *c10gen.CollisionSpec, cr c10rt.CollisionReport) {
 		j.v(scen, pclass, "registration-panic", fmt.Sprintf("%s mapper: %s: the registering process crashed: %s", j.mapper, cs.What, tail(cr.Output, 300)), w)
 	default:
 		j.incon = append(j.incon, fmt.Sprintf("collision %s: exit %d without conflict message: %s", cs.ID, cr.Exit, tail(cr.Output, 200)))
+	}
+}
+
+// single judges ONE registration (a controller) run in a grandchild: if it was accepted, its
+// returned names must be pairwise distinct and every handler must be reachable under exactly the
+// name returned for it; if its names collide, the only acceptable outcome is the loud refusal.
+func (j *judge) single(cs *c10gen.CollisionSpec, cr c10rt.CollisionReport) {
+	const scen = "intra-registration-collision"
+	pclass := cs.PClass
+	w := map[string]interface{}{"registration": cs.A, "what": cs.What, "class": cs.Class, "grandchild": cr}
+	core.Add("single_controller_collision_runs", 1)
+	core.Distinct("nontrivial", j.mapper+"/"+pclass+"/"+scen+":"+cs.A.Kind)
+	if !cr.Survived {
+		switch {
+		case cr.Exit != 0 && strings.Contains(cr.Output, "conflict"):
+			core.Add("collision_runs_loud_conflict", 1)
+		case cr.Exit != 0 && (strings.Contains(cr.Output, "panic:") || strings.Contains(cr.Output, "fatal error:")):
+			j.v(scen, pclass, "registration-panic", fmt.Sprintf("%s mapper: %s: the registering process crashed: %s", j.mapper, cs.What, tail(cr.Output, 300)), w)
+		default:
+			j.incon = append(j.incon, fmt.Sprintf("collision %s: exit %d without conflict message (%s): %s", cs.ID, cr.Exit, cr.Problem, tail(cr.Output, 200)))
+		}
+		return
+	}
+	// the registration was accepted and the process went on
+	count := map[string]int{}
+	var dups []string
+	for _, n := range cr.NamesA {
+		count[n]++
+		if count[n] == 2 {
+			dups = append(dups, n)
+		}
+	}
+	if len(dups) > 0 {
+		ran := ""
+		if cr.Answers != nil {
+			ran = fmt.Sprintf("; requesting %q ran %v, so %d of the %d handlers cannot be reached under the name returned for them", dups[0], cr.Answers[dups[0]], len(cr.NamesA)-len(count), len(cs.A.Tags))
+		}
+		j.v(scen, pclass, "silent-collision", fmt.Sprintf("%s mapper: one %s of %s in %q returned %q: the name %q is returned twice and the process went on%s", j.mapper, cs.A.Kind, cs.A.What, cs.A.Group, cr.NamesA, dups[0], ran), w)
+		return
+	}
+	if cr.Problem != "" {
+		j.incon = append(j.incon, "collision "+cs.ID+": "+cr.Problem)
+		return
+	}
+	core.Add("collision_runs_names_differed", 1)
+	// names distinct (the planned clash did not happen): still, names <-> handlers one to one
+	if len(cr.NamesA) != len(cs.A.Tags) {
+		j.v(scen, pclass, "wrong-name-count", fmt.Sprintf("%s mapper: %s returned %d names %q for %d handlers", j.mapper, cs.What, len(cr.NamesA), cr.NamesA, len(cs.A.Tags)), w)
+		return
+	}
+	seen := map[string]string{}
+	for _, n := range cr.NamesA {
+		if n == "" {
+			continue
+		}
+		tags := cr.Answers[n]
+		if len(tags) != 1 || !has(cs.A.Tags, tags[0]) {
+			j.v(scen, pclass, "wrong-handler", fmt.Sprintf("%s mapper: %s returned %q, requesting %q ran %v", j.mapper, cs.What, cr.NamesA, n, tags), w)
+			return
+		}
+		if prev, dup := seen[tags[0]]; dup {
+			j.v(scen, pclass, "wrong-handler", fmt.Sprintf("%s mapper: %s returned %q, the names %q and %q both ran handler %s", j.mapper, cs.What, cr.NamesA, prev, n, tags[0]), w)
+			return
+		}
+		seen[tags[0]] = n
 	}
 }
 
